@@ -1149,10 +1149,14 @@ func (m *membersPool) MembersLen(node base.Address) int {
 }
 
 func (m *membersPool) Set(member Member) (added bool) {
-	_, _, _ = m.addrs.Set(memberid(member.Addr()), func(_ Member, addrfound bool) (Member, error) {
+	_, _, _ = m.addrs.Set(memberid(member.Addr()), func(old Member, addrfound bool) (Member, error) {
 		added = !addrfound
 
 		id := memberid(member.Addr())
+
+		if addrfound && old != nil && !old.Address().Equal(member.Address()) {
+			m.removeFromNode(old.Address(), id)
+		}
 
 		_, _, _ = m.members.Set(member.Address().String(), func(i []Member, _ bool) ([]Member, error) {
 			// NOTE rejoined member replaces the previous one of the same addr
@@ -1172,23 +1176,26 @@ func (m *membersPool) Set(member Member) (added bool) {
 func (m *membersPool) Remove(k *net.UDPAddr) (bool, error) {
 	return m.addrs.Remove(memberid(k), func(i Member, found bool) error {
 		if found {
-			id := memberid(k)
-
-			// NOTE removes only the left member from the node list
-			_, _, _, _ = m.members.SetOrRemove(
-				i.Address().String(),
-				func(members []Member, _ bool) ([]Member, bool, error) {
-					filtered := util.FilterSlice(members, func(n Member) bool {
-						return memberid(n.Addr()) != id
-					})
-
-					return filtered, len(filtered) < 1, nil
-				},
-			)
+			m.removeFromNode(i.Address(), memberid(k))
 		}
 
 		return nil
 	})
+}
+
+// removeFromNode removes only the member of the given member id from the node
+// list.
+func (m *membersPool) removeFromNode(node base.Address, id string) {
+	_, _, _, _ = m.members.SetOrRemove(
+		node.String(),
+		func(members []Member, _ bool) ([]Member, bool, error) {
+			filtered := util.FilterSlice(members, func(n Member) bool {
+				return memberid(n.Addr()) != id
+			})
+
+			return filtered, len(filtered) < 1, nil
+		},
+	)
 }
 
 func (m *membersPool) Len() int {
